@@ -6,10 +6,6 @@ Open Scope N_scope.
 
 (* ---------- classes excluded from the _partial theorems (= classifiers of the findings) ---------- *)
 
-(* kf-c07-text-escape-dropped: a grammar-valid text literal that has no denotation *)
-Definition text_undenotable (tok : list N) : bool :=
-  text_spelling tok && match text_lit tok with Some _ => false | None => true end.
-
 (* kf-c07-bytes-escapes-not-processed: an unprefixed byte string containing a backslash *)
 Definition has_backslash (s : list N) : bool := existsb (N.eqb 92) s.
 
@@ -104,8 +100,8 @@ Definition eval_occur (s : list N) :=
 Definition eval_tag (s : list N) :=
   out (r_tag_ast (convert_tag_head s)) (r_tag_sem (omap tag_sem (convert_tag_head s))) (r_tag_sem (tag_value s)) (tag_spelling s) [].
 Definition eval_text (s : list N) :=
-  out (r_text [84] (Some (text_value_model s)) ERR) (r_text [84] (Some (text_value_model s)) ERR) (r_text [84] (text_lit s) NONE)
-      (text_spelling s) (bit (text_undenotable s)).
+  out (r_text [84] (text_value_model s) ERR) (r_text [84] (text_value_model s) ERR) (r_text [84] (text_lit s) ERR)
+      (text_spelling s) [].
 Definition eval_b16 (s : list N) :=
   out (r_bytes [66; 72] (bytes_b16_model s) ERR) (r_bytes [66; 72] (bytes_b16_model s) ERR) (r_bytes [66; 72] (b16_lit s) ERR)
       (bytes_b16_spelling s) [].
